@@ -721,7 +721,8 @@ impl Sim {
         let mut scenario = std::pin::pin!(scenario);
         let flag = Arc::new(FlagWaker(AtomicBool::new(true)));
         let waker = Waker::from(flag.clone());
-        let limit = START_SEC * NS + max_virtual_ns;
+        // the budget of virtual time is per run (scenario), not per process
+        let limit = self.core.now_ns() + max_virtual_ns;
         let mut iters: u64 = 0;
         loop {
             iters += 1;
